@@ -47,14 +47,25 @@ InterpSurf(pu, pv, mv) == /\ out.op = "init" /\ c.dim = 2 /\ c.a # 0 /\ NP <= 5 
                  pts |-> [x \in 1..(NP * (mv + 1)) |-> LET iu == (x - 1) \div (mv + 1) iv == (x - 1) % (mv + 1) IN <<xs[iu + 1], yz[iv + 1][1], yz[iv + 1][2]>>],
                  uk |-> uk, vl |-> vl, kvu |-> Uu, kvv |-> Uv, Nu |-> Colloc(pu, Uu, uk), Nv |-> Colloc(pv, Uv, vl)]
    /\ UNCHANGED c
+\* data with a cluster of nearly coincident (distinct) consecutive points: steps of length 200 and 1.  The collocation matrix is
+\* very badly scaled (its entries exceed TLC's integers, so the specification states parameters, knots and the
+\* Schoenberg-Whitney conditions; the replay forms the basis values from them in exact arithmetic)
+ClusterSteps == LET B == <<<<<<200, 0>>, 200, 0>>, <<<<0, 200>>, 200, 0>>>>   S == <<<<<<1, 0>>, 1, 1>>, <<<<0, 1>>, 1, 1>>>> IN
+   <<B[1], B[2], B[1], S[1], S[2], S[1], S[2], B[1], B[2], B[1]>>
+InterpCluster(p) == /\ out.op = "init" /\ c = [dim |-> 2, centr |-> FALSE, m |-> 4, a |-> 0, b |-> 0]     \* one representative initial state
+   /\ \E uk \in {ParamsOf(ClusterSteps, FALSE)} : \E U \in {AvgKnots(p, Len(ClusterSteps) + 1, uk)} :
+        out' = [op |-> "interp_curve", p |-> p, pts |-> CumPts(<<0, 0>>, ClusterSteps), uk |-> uk, kv |-> U, N |-> <<>>,
+                sw |-> SWKnots(p, U, uk)]
+   /\ UNCHANGED c
 Next == \/ \E p \in 1..4 : Interp(p)
+        \/ \E p \in 3..5 : InterpCluster(p)
         \/ \E p \in 1..3 : \E n \in 3..(MaxApproxPts - 1) : Approx(p, n)
         \/ \E pu \in 1..3 : \E pv \in 1..2 : \E mv \in 2..3 : InterpSurf(pu, pv, mv)
 Spec == Init /\ [][Next]_vars
 \* averaged knots satisfy the Schoenberg-Whitney conditions: the collocation matrix is non-singular
-T_SW == out.op = "interp_curve" => out.sw /\ ValidKV(out.kv) /\ Len(out.kv) = Len(out.pts) + out.p + 1
+T_SW == out.op = "interp_curve" => out.sw /\ (out.N # <<>> => SWKnots(out.p, out.kv, out.uk)) /\ ValidKV(out.kv) /\ Len(out.kv) = Len(out.pts) + out.p + 1
 T_Approx == out.op = "approx_curve" => out.valid /\ out.populated /\ Len(out.kv) = out.n + out.p + 1
 \* rows of every collocation matrix are a partition of unity
-T_Rows == out.op \in {"interp_curve", "approx_curve"} => \A k \in 1..Len(out.N) : RSum(out.N[k]) = One
+T_Rows == out.op \in {"interp_curve", "approx_curve"} /\ out.N # <<>> => \A k \in 1..Len(out.N) : RSum(out.N[k]) = One
 EmitC == out.op # "init" => PrintT("CASE " \o ToJson([c |-> c, out |-> out]))
 =============================================================================
